@@ -26,8 +26,9 @@ TMP = os.path.join(lib.BUILD, "tmp", "c11")
 # Canonical (minimised) witnesses of the two findings on the pinned tree
 # ------------------------------------------------------------------------------------------------
 
-# D5: a multi-output plugin with one stored (loader-fed) output and one output that must be recomputed.
-# Same configuration as coq/Proof/PlannerProof.v: d5_graph / d5_ctx / d5_req.
+# D5 (repaired in /repo by e1cd0b8): a multi-output plugin with one stored (loader-fed) output and one output
+# that must be recomputed.  Same configuration as coq/Proof/PlannerExamples.v: d5_graph / d5_ctx / d5_req.
+# It is replayed on the real threaded processor on every run: a revert of the fix is a VIOLATION with this input.
 WITNESS_D5 = {
     "graph": {"n": 3, "kinds": [0, 1, 2],
               "plugins": [{"prov": [0, 1], "deps": [], "sw": [3, 3]},
@@ -576,8 +577,8 @@ def run(ctx):
 
 def _run_main(ctx):
     rng = ctx.rng
-    t_start = ctx.t0                                   # wall clock of the whole check, build included
-    budget = (24 * 60) if ctx.thorough else 120      # seconds for plan + exec units (safety net; sizes are count-based)
+    t_start = time.time()                              # the (normally no-op) Coq build is not charged to the cases
+    budget = (24 * 60) if ctx.thorough else 100      # seconds for plan + exec units (safety net; sizes are count-based)
     work = build_workload(ctx)
     # ---- model side: all plan lines in one batch
     lines, index = [], []
@@ -668,7 +669,7 @@ def _run_main(ctx):
     ctx.coverage["threaded_wiring_matches"] = code_wiring
 
     # ---- end-to-end executions
-    _unit_exec(ctx, work, model, exec_pool, t_start, budget)
+    _unit_exec(ctx, work, model, exec_pool, t_start, budget, code_wiring)
 
     ctx.notes.append("timing: exec unit finished at %.0fs" % (time.time() - t_start))
     # ---- D5: dynamic confirmation on the real threaded processor
@@ -750,9 +751,9 @@ def _decide_wiring(ctx, s):
         r = "undetermined (no generated case distinguishes the two)"
     else:
         r = "mixed"
-    ctx.notes.append("ThreadedMailboxProcessor wiring of the code under test matches the model's %s "
-                     "(cases where pinned and fixed differ: pinned %d, fixed %d)"
-                     % (r, s["threaded_eq_pinned_only"], s["threaded_eq_fixed_only"]))
+    ctx.notes.append("ThreadedMailboxProcessor wiring of the code under test matches the model's %s; expected: "
+                     "wiring_fixed (since /repo e1cd0b8) (cases where the pre-fix wiring_pinned and wiring_fixed "
+                     "differ: pinned %d, fixed %d)" % (r, s["threaded_eq_pinned_only"], s["threaded_eq_fixed_only"]))
     return r
 
 
@@ -806,7 +807,7 @@ def _exec_one(w, g, rq, entry, processor, tag="x", timeout=8):
     return I.run_exec(st, g, rq, paths, entry=entry, processor=processor)
 
 
-def _unit_exec(ctx, work, model, pool, t_start, budget):
+def _unit_exec(ctx, work, model, pool, t_start, budget, code_wiring):
     rng = ctx.rng
     n_want = 12000 if ctx.thorough else 600
     pool = list(pool)
@@ -865,9 +866,13 @@ def _unit_exec(ctx, work, model, pool, t_start, budget):
                 if mt:
                     dist["user_target_policy_deviation"] = dist.get("user_target_policy_deviation", 0) + 1
                     ctx.coverage.setdefault("multi_target_deviation_example", {"graph": g, "case": rq, "entry": entry, "what": mt})
-            # the threaded processor on the cases where both candidate wirings agree
-            if not reason and not ob["err"] and not m1["err"] and m1["WP"] == m1["WF"] and rng.random() < 0.25 \
-                    and ob["components"] is not None:
+            # the threaded processor (on code with the pre-fix wiring only where both candidate wirings agree;
+            # the cases in between belong to the one_origin_threaded unit)
+            sibling = not m1["err"] and m1["WP"] != m1["WF"]
+            if sibling:
+                dist["loader_fed_sibling"] = dist.get("loader_fed_sibling", 0) + 1
+            if not reason and not ob["err"] and not m1["err"] and ob["components"] is not None \
+                    and ((not sibling and rng.random() < 0.25) or (sibling and code_wiring == "wiring_fixed")):
                 ob2 = _exec_one(w, g, rq, entry, "threaded_mailbox", tag="y")
                 dist["threaded"] += 1
                 r2 = check_exec_against_spec(g, rq, entry, ob2)
@@ -942,6 +947,11 @@ def _unit_d5(ctx, work, d5_cases, code_wiring):
         dist["dynamic_runs"] += 1
         if ob.get("run_fails"):
             dist["dynamic_failures"] += 1
+            if not why and "imeout" not in str(ob.get("run_fails")):
+                ctx.violation("one_origin_threaded", "threaded run fails on a request with a loader-fed sibling output "
+                              "although the wiring has one producer per topic: %s" % ob["run_fails"],
+                              {"input": {"graph": g, "case": dict(rq, targets=[rq["targets"][0]]),
+                                         "processor": "threaded_mailbox"}})
         if r1:
             ctx.violation("exec", "single-thread processor fails on a loader-fed-sibling case: %s" % r1,
                           {"input": {"graph": g, "case": rq, "entry": "get_array", "processor": "single_thread"}})
